@@ -373,7 +373,7 @@ class Discharger:
 
     # -------------------------------------------------------------- dispatcher
     def discharge(self, f, b, t, kind, what):
-        for rule in (self.d_arity, self.d_arity_user, self.d_dominating_test, self.d_checked_key, self.d_nonempty,
+        for rule in (self.d_arity, self.d_arity_user, self.d_dominating_test, self.d_checked_key, self.d_nonempty, self.d_container_variant,
                      self.d_table, self.d_counter, self.d_total_cast, self.d_const_index, self.d_borrow, self.d_known_arith,
                      self.d_const_input, self.d_div_guarded):
             r = rule(f, b, t, kind, what)
@@ -407,6 +407,86 @@ class Discharger:
             else:
                 return None
         return None
+
+    # -------------------------------------------------------------- D-container-variant
+    def d_container_variant(self, f, b, t, kind, what):
+        """`unreachable!()` / `panic!()` in the arm for variant V of a match on an element taken out of a local Vec (pop / iteration),
+        where every element ever put into that Vec (push, in this function; the Vec is created here and never handed out) was put
+        there inside a match arm, on the very value pushed, for a variant other than V.  Then no element of the Vec is a V."""
+        if kind != "panic":
+            return None
+        preds = f.preds()
+        if len(preds.get(b, ())) != 1:
+            return None
+        sb = next(iter(preds[b]))
+        sw = next((x for x in mir.discriminant_switches(f) if x[0] == sb), None)
+        if sw is None:
+            return None
+        _, place, adt, targets, other = sw
+        vs = [v for v, tg in targets.items() if tg == b]
+        if len(vs) != 1 or other == b:
+            return None
+        V = vs[0]
+        # the matched element: ... = (pop result as Some).0
+        cur, vec, steps = place["local"], None, 0
+        while steps < 6:
+            steps += 1
+            ds = mir.defs_of(f).get(cur, [])
+            if len(ds) != 1:
+                return None
+            d = ds[0]
+            if d[0] == "call":
+                c = callee(d[2]) or ""
+                if c.endswith("Vec::pop") or c.endswith("Vec::<T>::pop") or c.endswith("Vec::<T, A>::pop"):
+                    root, path = mir.trace_access(f, d[2]["args"][0])
+                    vec = root if not path else None
+                break
+            rv = d[3]["rv"]
+            if rv["k"] == "use" and mir.op_place(rv["op"]) is not None:
+                cur = mir.op_place(rv["op"])["local"]
+            elif rv["k"] == "ref":
+                cur = rv["place"]["local"]
+            else:
+                return None
+        if vec is None or not (f.local_ty(vec) or "").startswith("std::vec::Vec<"):
+            return None
+        # the Vec is local: made by Vec::new / with_capacity here, used only through push / pop / len / is_empty / drop
+        dsv = mir.defs_of(f).get(vec, [])
+        if not (len(dsv) == 1 and dsv[0][0] == "call" and (callee(dsv[0][2]) or "").rsplit("::", 1)[-1] in ("new", "with_capacity")):
+            return None
+        dom = f.dominators()
+        switches = [x for x in mir.discriminant_switches(f) if x[2] == adt]
+        pushes = 0
+        for bb, tt in f.calls():
+            if f.blocks[bb]["cleanup"]:
+                continue
+            uses_vec = any(mir.trace_access(f, a)[0] == vec for a in tt["args"] if mir.op_place(a) is not None)
+            if not uses_vec:
+                continue
+            c = (callee(tt) or "").rsplit("::", 1)[-1]
+            if c in ("pop", "len", "is_empty", "drop", "last", "clear", "deref", "drop_in_place"):
+                continue
+            if c != "push":
+                return (False, "D-container-variant", "the Vec the element comes from is also used by %s" % (callee(tt),))
+            pushes += 1
+            proot, ppath = mir.trace_access(f, tt["args"][1])
+            good = False
+            for ssb, splace, sadt, stargets, sother in switches:
+                sroot, spath = mir.trace_access(f, {"k": "copy", "place": {"local": splace["local"], "proj": []}})
+                spath = spath + [e["i"] for e in splace["proj"] if e["k"] == "field"]
+                if (sroot, spath) != (proot, ppath):
+                    continue
+                # the push is under this match (the switch dominates it) and cannot be reached from the arm for V without coming
+                # through the match again
+                tv = stargets.get(V, sother)
+                if ssb in dom.get(bb, ()) and tv is not None and bb not in f.reachable(tv, avoid={ssb}):
+                    good = True
+            if not good:
+                return None
+        if not pushes:
+            return None
+        return (True, "D-container-variant", "every element pushed into the local Vec is pushed inside a match arm for a variant other than the "
+                "one this arm handles (%d push site(s))" % pushes)
 
     # -------------------------------------------------------------- D-arity
     def d_arity(self, f, b, t, kind, what):
